@@ -128,7 +128,16 @@ def gen_heal(rng, i):
     while el < dur:
         st = rng.choice([250, 1000, 1000, 4000, 16000]); el += st; t = (t + st) % (1 << 32) or 1
         ops += ["T%d" % t, "kA", "kB", "Z"]
-    for _ in range(15):
+    # healed network, both readers read once per 10 s round: 60 s for the back-off ceiling, then at most one receive buffer per round and
+    # direction can be handed over, so the number of rounds follows the amount of data (the property's bound: "the retransmission back-off
+    # ceiling and the amount of data"); a fixed 150 s was too short for 20 000 bytes into a 2000-byte buffer (false alarm under VERIF_SEED=2)
+    tot = {"A": 0, "B": 0}
+    for o in ops:
+        if o[0] == "s":
+            tot[o[1]] += int(o[2:].split(":")[0])
+    rbuf = {"A": int(ca.split(":")[0]) or 61440, "B": int(cb.split(":")[0]) or 61440}
+    rounds = 15 + max(2 * tot["B"] // rbuf["A"], 2 * tot["A"] // rbuf["B"])
+    for _ in range(rounds):
         ops += ["Q40", "rA200000", "rB200000"]
     ops += ["hA1", "Q8", "rB200000", "hB1", "Q8", "rA200000", "rB200000", "Q40", "rA200000", "rB200000", "nA0", "nB0"]
     return "h%d %s %s %s" % (i, ca, cb, " ".join(ops)), "heal"
@@ -420,7 +429,7 @@ def oracle(line, out, want=("C08", "C09", "C10"), want_window_sink=None):
             return "an error closure was reported although the outage lasted at most 120 s and the network then delivered everything"
         for w in (0, 1):
             if read[w] != written[1 - w]:
-                return "%d of the %d bytes written by %s were readable after the network had healed for 150 s" % (len(read[w]), len(written[1 - w]), "AB"[1 - w])
+                return "%d of the %d bytes written by %s were readable after the network had healed (150 s plus two 10 s reading rounds per receive buffer of data)" % (len(read[w]), len(written[1 - w]), "AB"[1 - w])
     return None
 
 def nontrivial(line, out):
@@ -480,6 +489,9 @@ CORPUS = [
     ("k2 0:0:1:100:1:1:7 1024:0:1:100:1:1:7 cA N N N sA3000:5 hA1", "corpus"),
     # shutdown while the write callback rejects everything
     ("k3 0:0:1:100:1:1:7 0:0:1:100:1:1:7 cA N N N lA30 sA100:9 hA1 Q2 lB30 hB1 Q1", "corpus"),
+    # a connect segment without window-scale option once more than 60 KiB sit in a scaled receive buffer (fix 4e3dfae: was an assertion)
+    ("k5 1048576:0:1:0:0:1:4294967295 262144:0:0:250:1:1:4294967295 cA N N N sB100:249 T1050 kA T1100 kA rB10 iAffffffff4a4b8764000000080000f016fe8b0b8703c22000b52016e7916f2f5e1f454613c2a260926970b520dac8bd330eb5b815e16357e1f345d7c0d1537c272b44e2a4135261e8c208e91b619c8dd0e690dfd49b76d5cb6188fdda5971ca6c27f63c2e rA0 U4 sB70000:249 N xB0 Q2 D2 U0 U3 T5100 kB D1 T9100 kA kB hA2 jA13:4~1000 Q2 X iAffffffffdccc4675b73f8e930003bce00dcb8b72b43fb85d0001 N", "corpus"),
+    ("k6 1048576:0:1:0:0:1:7 0:0:1:100:1:1:7 cA N N N sB70000:5 Q3 iA0000000700000000000000000002100000000000000000000001 Q1 rA200000", "corpus"),
     # ACK of our FIN while in NewReno recovery
     ("k4 0:0:0:500:1:1:4294967295 0:0:1:1:0:1:4294967295 cA N N N T1101 kB kA rB100 sB1284:26 Q2 rA1000 X Q2 hB0 T1202 kA kB hA2 sA4543:26 sA1:26 hA1 D0 sB3000:26 U1 N sB4425:26 hB0 X rB0 rA65536 sB1:26 sA1:26 hB2 sB1:26 sB1284:26 T17202 kB kA T33202 kB kA sB2798:26 sB10:26 hB0 sB1284:26 hB2 Q2 N D5 hB2 rA10 N Q1 N X rA0", "corpus"),
 ]
